@@ -38,6 +38,8 @@ def check(ctx):
     d4_hierarchy(ctx, idx)
     d5_translations(ctx, idx)
     d6_numpy_state(ctx, idx)
+    d7_templates(ctx, idx)
+    d8_unbound(ctx, idx)
 
 
 # ----------------------------------------------------------------------------- D1
@@ -867,8 +869,168 @@ def _np_error_table(idx, h):
     return out
 
 
+# ----------------------------------------------------------------------------- D7
+def _literal_text(e):
+    """The text of a template expression built from string literals only (concatenation), else None."""
+    if isinstance(e, ast.Constant) and isinstance(e.value, str):
+        return e.value
+    if isinstance(e, ast.BinOp) and isinstance(e.op, ast.Add):
+        a, b = _literal_text(e.left), _literal_text(e.right)
+        return None if a is None or b is None else a + b
+    return None
+
+
+def _add_parts(e):
+    if isinstance(e, ast.BinOp) and isinstance(e.op, ast.Add):
+        return _add_parts(e.left) + _add_parts(e.right)
+    return [e]
+
+
+def _has_field(text):
+    return '{' in text.replace('{{', '')
+
+
+def _template_contributions(fi, cfg, call, name):
+    """(definition statement, value expr, is_augmented) for every definition of local `name` that reaches `call`."""
+    defs = []
+    for n in walk_own(fi.node):
+        if isinstance(n, ast.Assign) and any(isinstance(t, ast.Name) and t.id == name for t in n.targets):
+            defs.append((n, n.value, False))
+        elif isinstance(n, ast.AugAssign) and isinstance(n.target, ast.Name) and n.target.id == name:
+            defs.append((n, n.value, True))
+        elif isinstance(n, (ast.For, ast.With, ast.ExceptHandler, ast.NamedExpr, ast.AnnAssign)):
+            tgt = getattr(n, 'target', None)
+            if tgt is not None and any(isinstance(x, ast.Name) and x.id == name for x in ast.walk(tgt)):
+                defs.append((n, getattr(n, 'value', None) or getattr(n, 'iter', None), False))
+    use = cfg.nodes_containing(call)
+    if not use:
+        return None
+    killers = [x for d, _, aug in defs if not aug for x in cfg.nodes_of(d)]
+    out = []
+    for d, v, aug in defs:
+        dn = cfg.nodes_of(d)
+        if not dn:
+            return None
+        blocked = [k for k in killers if k not in dn]
+        if cfg.reaches(dn, use, blocked=blocked):
+            out.append((d, v, aug))
+    return out
+
+
+def d7_templates(ctx, idx):
+    r = ctx.rule('D7.TEMPLATE', 'a message template handed to str.format consists of literal text only: data (names, student text, '
+                 'configured strings) enters through the arguments, never through the template', floor=90)
+    with r:
+        for fi in idx.package_funcs():
+            if '.voluptuous.' in fi.qualname or fi.qualname.startswith('voluptuous'):
+                continue
+            calls = [n for n in walk_own(fi.node) if isinstance(n, ast.Call) and isinstance(n.func, ast.Attribute)
+                     and n.func.attr == 'format' and not (isinstance(n.func.value, ast.Name) and n.func.value.id in ('string', 'np', 'numpy'))]
+            if not calls:
+                continue
+            cfgs = {}
+
+            def the_cfg():
+                if 'c' not in cfgs:
+                    cfgs['c'] = cfg_of(fi.node)
+                return cfgs['c']
+
+            for c in calls:
+                recv = c.func.value
+                what = '%s: `%s`' % (fi.qualname[len('mitxgraders.'):], short(c))
+                if _literal_text(recv) is not None:
+                    r.ok(what, 'literal template', lib.loc(fi, c))
+                    continue
+                if isinstance(recv, ast.Attribute):
+                    # class-level template attributes (debug appendix templates): literal in the class body
+                    v = None
+                    if fi.cls is not None and isinstance(recv.value, ast.Name):
+                        v = idx.lookup_attr(fi.cls, recv.attr)
+                    if v is not None and _literal_text(v) is not None:
+                        r.ok(what, 'class-level literal template', lib.loc(fi, c))
+                    continue
+
+                def pieces(x, depth=0, busy=()):
+                    """[(kind, node-or-text, defining stmt)]: kind 'lit' (text), 'data' (a non-literal value concatenated in),
+                    'opaque' (a template obtained as a whole from elsewhere: parameter, attribute, call)."""
+                    t = _literal_text(x)
+                    if t is not None:
+                        return [('lit', t, None)]
+                    if isinstance(x, ast.BinOp) and isinstance(x.op, ast.Add):
+                        out = []
+                        for side in (x.left, x.right):
+                            ps = pieces(side, depth, busy)
+                            out += [('data', p[1], p[2]) if p[0] == 'opaque' else p for p in ps]
+                        return out
+                    if isinstance(x, ast.Name) and depth < 4 and x.id not in busy:
+                        cs = _template_contributions(fi, the_cfg(), c, x.id)
+                        if cs:
+                            out = []
+                            for d, v, aug in cs:
+                                if v is None:
+                                    out.append(('opaque', x, d))
+                                    continue
+                                ps = pieces(v, depth + 1, busy + (x.id,))
+                                if aug:
+                                    ps = [('data', p[1], d) if p[0] == 'opaque' else p for p in ps]
+                                out += [(k, n, dd or d) for k, n, dd in ps]
+                            return out
+                    return [('opaque', x, None)]
+
+                ps = pieces(recv)
+                kinds = {k for k, _, _ in ps}
+                if kinds == {'lit'}:
+                    r.ok(what, 'template built from literal text only (%d piece(s), through locals)' % len(ps), lib.loc(fi, c))
+                    continue
+                has_field = any(k == 'lit' and _has_field(n) for k, n, _ in ps)
+                data = [(n, d) for k, n, d in ps if k == 'data']
+                if has_field and data:
+                    n, d = data[0]
+                    r.violation(what, 'data is concatenated into the template before it is formatted (`%s`%s): a brace in that text (names '
+                                'with tensor indices such as X_{1} are legal) is read as a replacement field, so the message is garbled or '
+                                'str.format raises IndexError/KeyError/ValueError and the anticipated error is replaced by the generic '
+                                '"Could not check input" message' % (short(n), ', `%s` line %d' % (short(d), d.lineno) if d is not None else ''),
+                                lib.loc(fi, c), expected='format the literal template first, then append the data')
+                # a template obtained as a whole from elsewhere (author-supplied) is not decided here
+
+
+# ----------------------------------------------------------------------------- D8
+def d8_unbound(ctx, idx):
+    from .. import defuse
+    r = ctx.rule('D8.UNBOUND', 'no local variable is read on a parameter-determined path on which it was never bound '
+                 '(UnboundLocalError is not a library error)', floor=200)
+    with r:
+        for fi in idx.package_funcs():
+            if '.voluptuous.' in fi.qualname or fi.qualname.startswith('voluptuous'):
+                continue
+            try:
+                found, st = defuse.unbound_uses(fi.node)
+            except RecursionError:
+                continue
+            if not st['locals']:
+                continue
+            name = fi.qualname[len('mitxgraders.'):]
+            if not found:
+                r.ok(name, '%d local(s), %d guard atom(s), %d valuation(s): every decided path binds before use'
+                     % (st['locals'], st['atoms'], st['valuations']), fi.loc, nontrivial=st['atoms'] > 0)
+            for f in found:
+                r.violation('%s: `%s`' % (name, f.name), 'the local `%s` is read at line %d but no assignment to it lies on the path taken %s '
+                            '(%s): the call dies with UnboundLocalError, which is not a library error%s'
+                            % (f.name, f.node.lineno, f.describe(), ' -> '.join('L%d' % n.lineno for n in f.path if n.ast is not None)[:160],
+                               '; this function runs outside the guard of __call__, so the raw exception reaches edX'
+                               if fi.qualname.endswith('ensure_text_inputs') else ''),
+                            lib.loc(fi, f.node))
+
+
 # ------------------------------------------------------------------------ self-test
 MUTANTS = [
+    Mutant('suggestion-appended-before-format (F9)', EXPR, '            varnames = "\', \'".join(sorted(bad_vars))\n            message = "Invalid Input: \'{}\' not permitted in answer as a variable".format(varnames)\n\n            # Check to see if there is a different case version of the variable\n            caselist = set()\n            for var2 in bad_vars:\n                for var1 in variables:\n                    if var1.lower() == var2.lower():\n                        caselist.add(var1)\n            if len(caselist) > 0:\n                betternames = "\', \'".join(sorted(caselist))\n                message += " (did you mean \'" + betternames + "\'?)"\n\n            raise UndefinedVariable(message)\n', '            varnames = "\', \'".join(sorted(bad_vars))\n            message = "Invalid Input: \'{}\' not permitted in answer as a variable"\n\n            # Check to see if there is a different case version of the variable\n            caselist = set()\n            for var2 in bad_vars:\n                for var1 in variables:\n                    if var1.lower() == var2.lower():\n                        caselist.add(var1)\n            if len(caselist) > 0:\n                betternames = "\', \'".join(sorted(caselist))\n                message += " (did you mean \'" + betternames + "\'?)"\n\n            raise UndefinedVariable(message.format(varnames))\n', 'D7'),
+    Mutant('parse-message-concatenates-input', EXPR, "            msg = \"Invalid Input: Could not parse '{}' as a formula\"\n            raise UnableToParse(msg.format(expression))",
+           "            msg = \"Invalid Input: Could not parse '{}' as a formula: \" + expression\n            raise UnableToParse(msg.format(expression))", 'D7'),
+    Mutant('unbound-pos-in-text-check (seed C02f)', BASE, "        elif allow_lists:\n            msg = (\"Expected a list of text strings for student_input, but \"",
+           "        elif isinstance(student_input, list):\n            msg = (\"Expected a list of text strings for student_input, but \"", 'D8'),
+    Mutant('unbound-after-flag-branch', BASE, "        if attempt_number < 1:  # Just in case edX has issues\n            attempt_number = 1\n",
+           "        if attempt_number is None:\n            shown = 1\n        self.log(\"Attempt {}\".format(shown))\n", 'D8'),
     Mutant('seterr-all-call (seed C15d)', EXPR, "np.seterr(divide='call', over='call', invalid='call')", "np.seterr(all='call')", 'D6'),
     Mutant('exception-needs-two-arguments (seed C02c)', 'mitxgraders/helpers/calc/exceptions.py', 'class UnbalancedBrackets(CalcError):\n    \"\"\"\n    Indicate when a student\'s input has unbalanced brackets.\n    \"\"\"\n',
            'class UnbalancedBrackets(CalcError):\n    \"\"\"\n    Indicate when a student\'s input has unbalanced brackets.\n    \"\"\"\n    def __init__(self, message, highlight=None, *, formula):\n        super(UnbalancedBrackets, self).__init__(message)\n', 'D4'),
@@ -912,6 +1074,16 @@ MUTANTS = [
 ]
 
 BENIGN = [
+    Benign('template-from-literal-prefix-local', BASE,
+           "            msg = (\"There is a problem with the author's problem configuration: \"\n                   \"Expected answers to be a tuple of answers, instead received {}\")\n",
+           "            prefix = \"There is a problem with the author's problem configuration: \"\n            msg = prefix + \"Expected answers to be a tuple of answers, instead received {}\"\n"),
+    Benign('template-literal-concatenated-at-call', BASE,
+           "            msg = (\"There is a problem with the author's problem configuration: \"\n                   \"Expected answers to be a tuple of answers, instead received {}\")\n            raise ConfigError(msg.format(type(answers)))",
+           "            tail = \"Expected answers to be a tuple of answers, instead received {}\"\n            raise ConfigError((\"There is a problem with the author's problem configuration: \" + tail).format(type(answers)))"),
+    Benign('suffix-message-format-then-append', EXPR, "            raise UndefinedFunction(message)\n\n    def eval(",
+           "            message = message + ''\n            raise UndefinedFunction(message)\n\n    def eval("),
+    Benign('text-check-elif-equivalent', BASE, "        elif allow_lists:\n            msg = (\"Expected a list of text strings for student_input, but \"",
+           "        elif allow_lists and isinstance(student_input, list):\n            msg = (\"Expected a list of text strings for student_input, but \""),
     Benign('log-in-handler', BASE, "        except Exception as error:\n            if self.config['debug']:",
            "        except Exception as error:\n            self.log('grading failed')\n            if self.config['debug']:"),
     Benign('guard-broadened', BASE, "        except Exception as error:\n            if self.config['debug']:",
